@@ -21,7 +21,7 @@ CHECKS = {
             "Seeded Roland S-7xx images (cluster permutations, cluster_top, loop modes, FAT versions, exact-fill lengths) from an independent writer, exported through the simulated file and output seams and compared with the model; sampling, no schedule dimension.",
             "Trusts the independent writer's reading of the S-7xx layout; SimFile stands in for BufferedReader."),
     "C03": ("exploration", "5 C03", "seeded cue/bin workload with torn tails vs slice model",
-            "Seeded cue sheets and bins (torn tails not multiple of 2352/4, block-size knob) through the virtual-FS seam; per-track PCM compared with slices of the bin. Weakest fit for simulation (said so in DESIGN).",
+            "Seeded cue sheets and bins (torn tails not multiple of 2352/4, block-size knob, text styles: CRLF / no final newline / blank lines / keyword case / FILE in a sub- or parent directory / sheets over 8 KiB) through the virtual-FS seam; per-track PCM compared with slices of the bin. Weakest fit for simulation (said so in DESIGN).",
             "Cue generator covers AUDIO tracks with increasing indices only; virtual FS stands in for open()."),
     "C04": ("exploration", "5 C04", "acknowledgement invariant over clean and faulted simulated exports",
             "Every file acknowledged by an 'Exported' line in clean and fault-injected simulated exports (truncation, rot, failed create) is walked by an independent RIFF parser and stdlib wave; plus a seeded sweep of AKAI header tuning/loop bytes.",
@@ -42,14 +42,14 @@ CHECKS = {
             "The same logical disk is served through raw, 2352-byte-sector, MDX, cue->raw and cue->2352 simulated storage; ls at every level and export trees must agree with the raw arm.",
             "Purely differential; the raw arm is validated by C01/C02."),
     "C11": ("exploration", "5 C11", "seeded cooperative scheduler over clients sharing one file handle",
-            "Transcoder iterators, raw readers, lazy directory realisers and a foreign cursor-mover are clients stepped one operation at a time by a seeded scheduler over one SimFile; each stream's bytes must equal the model's. Small interleaving spaces are walked completely in the thorough tier.",
+            "Transcoder iterators, raw readers, lazy directory realisers and a foreign cursor-mover are clients stepped one operation at a time by a seeded scheduler over one SimFile; each stream's bytes must equal the model's. Small interleaving spaces are walked completely in the thorough tier. One fault kind: the image cut inside the physically last sample - that sample's reader may fail, every other stream must stay exact.",
             "Clients are cooperative generators (the code is single-threaded; pre-emption inside one read call is not meaningful)."),
     "C12": ("exploration", "5 C12", "seeded stream/knob configurations with EOF at arbitrary instants vs per-channel model",
             "Attributable sample values per (stream, channel, frame); block-size knob from one frame to 64 KiB; EOF of one source at every position relative to a block edge; patched host byte order; output compared with the per-channel model.",
             "The host-byte-order arm patches the tool's module-level notion of the host order (the quantifier's 'patched'); numpy itself keeps decoding natively."),
     "C13": ("fault_enumeration", "5 C13", "stored-data fault injection + bounded-liveness step clock in forked children",
-            "Random bytes and generated images with targeted/uniform rot, table faults, truncation and EIO; every ls/export must finish within a step budget relative to the clean arm and within an RSS bound, measured in a forked child with CPU/AS backstops.",
-            "Step clock does not see C-level loops (CPU backstop only); bounds are relative to the clean run with >=20x margin."),
+            "Random bytes and generated images with targeted/uniform rot, table faults, truncation, EIO and cue-sheet faults (dropped/duplicated/blank lines, huge numbers, very long titles, parent-directory FILE names); every ls/export must finish within a step budget relative to the clean arm and within an RSS bound, measured in a forked child with CPU/AS backstops.",
+            "Step clock does not see C-level loops (CPU backstop 45 s per scenario only, which is what found the cubic name regex D19); bounds are relative to the clean run with >=20x margin."),
     "C14": ("fault_enumeration", "5 C14", "single-record rot enumeration, differential against the clean arm",
             "Every byte position x value class of one directory record (AKAI file entry, Roland sample directory/parameter record) is damaged; all other entries must still be listed and exported unchanged relative to the clean arm of the same seed.",
             "Names are generated pairwise distant so that legitimate de-duplication/pairing cannot rename siblings."),
